@@ -49,7 +49,7 @@ int main(void)
 		default: r = LZMA_PROG_ERROR;
 		}
 		if (r != LZMA_OK) { printf("%d 0 0 0 -\n", (int)r); fflush(stdout); lzma_end(&s); continue; }
-		size_t ip = 0, op = 0; unsigned calls = 0; int stall = 0;
+		size_t ip = 0, op = 0; unsigned calls = 0; int stall = 0, finishing = 0;
 		while (1) {
 			size_t il, ol;
 			switch (mode) {
@@ -60,13 +60,14 @@ int main(void)
 			default: il = rnd() % 7 == 0 ? 0 : rnd() % 37; ol = rnd() % 7 == 0 ? 0 : rnd() % 53;
 			         if (rnd() % 11 == 0) il = n; if (rnd() % 13 == 0) ol = 70000; break;
 			}
-			if (il > n - ip) il = n - ip;
+			if (il > n - ip || finishing) il = n - ip;
 			if (ol > OUTCAP - op) ol = OUTCAP - op;
 			// exact-size heap copies so that ASan sees the true bounds of both buffers
 			uint8_t *ib = malloc(il ? il : 1), *ob = malloc(ol ? ol : 1);
 			memcpy(ib, in + ip, il);
 			s.next_in = ib; s.avail_in = il; s.next_out = ob; s.avail_out = ol;
 			lzma_action a = (ip + il == n) ? LZMA_FINISH : LZMA_RUN;
+			if (a == LZMA_FINISH) finishing = 1;
 			r = lzma_code(&s, a);
 			size_t di = il - s.avail_in, dd = ol - s.avail_out;
 			memcpy(out + op, ob, dd);
